@@ -9,6 +9,7 @@ from unittest import mock
 
 PROPERTY = "C18"
 LEVEL = "fault_enumeration"
+OPTIMIZED_SAMPLE = (3, 20)  # cases repeated under python -O (quick, thorough)
 JOBS = 16
 CASE_TIMEOUT = 600
 RULE = (
